@@ -17,6 +17,7 @@ Proof.
   - eapply inv_emb; eauto.
   - eapply inv_cancel; eauto.
   - eapply inv_shutdown; eauto.
+  - eapply inv_drain_ack; eauto.
 Qed.
 
 Lemma inv_reachable : forall P c, reachable P c -> inv P c.
@@ -128,7 +129,8 @@ Proof.
     + destruct (aq_ph c c0); try discriminate. destruct (nth_error (aq_q c c0) k).
       * destruct (ierr c c0); inv_some.
         -- apply Hs; cbn; auto.
-        -- apply Hs. match goal with |- context [ipc (deliver ?a ?p ?b ?k ?e ?cc) j] => rewrite (core_eq_ipc _ _ j (core_eq_deliver a p b k e cc)) end. cbn. auto.
+        -- apply Hs. match goal with |- context [if ?b then _ else _] => destruct b end; cbn [ipc set_aq_ph].
+           all: match goal with |- ipc (deliver ?a ?p ?b ?k ?e ?cc) ?jj = _ => rewrite (core_eq_ipc _ _ jj (core_eq_deliver a p b k e cc)) end; cbn; auto.
       * inv_some. apply Hs; cbn; unfold upd; eqb_cases; congruence.
     + inv_some. apply Hs; cbn; unfold upd; eqb_cases; congruence.
     + inv_some. apply Hs. cbn -[set_nth]. unfold upd.
@@ -155,6 +157,7 @@ Proof.
     + destruct (drain c); [destruct (has_ongoing (ongoing c))|..]; inv_some; cbn; auto.
     + destruct (drain c); inv_some; cbn; auto.
     + inv_some; cbn; auto.
+  - exfalso. apply Hs. unfold step_drain_ack in H. destruct (aq_ph c a); inv_some; cbn; auto.
 Qed.
 
 (* gate: when the implementation of call j is started, every other call whose implementation
